@@ -71,6 +71,8 @@ func main() {
 		os.Exit(traceCmd(os.Args[2:]))
 	case "instances":
 		os.Exit(instancesCmd(os.Args[2:]))
+	case "jpgas":
+		os.Exit(jpgasCmd(os.Args[2:]))
 	case "keytree":
 		os.Exit(keytreeCmd(os.Args[2:]))
 	}
